@@ -7,7 +7,7 @@ C07 — retention removes only fully expired segments and hides them at once. L1
                                               retentionTask.run
 `retentionRun` is `retentionTask.run` *after* the repair proposed in /verif/fixes/F7.diff (deadline
 from the current TTL option); `retentionRun_legacy` uses the duration captured when the task was
-created by `OpenTSDB`. `tick` is the event handler after the repair proposed in /verif/fixes/F14.diff.
+created by `OpenTSDB`. `tick` is the event handler after the repair proposed in /verif/fixes/F71.diff.
 -/
 import Banyan.Model.C06
 
@@ -124,11 +124,11 @@ def tickWith (z : Zone) (d : DB) (ts retNow : Int) : TickResult × DB :=
           | .panic => (.ok, { d with rotationDead := true })
           | _ => (.ok, d)
 
-/-- the event handler after the repair proposed in /verif/fixes/F14.diff: retention judges expiry
+/-- the event handler after the repair proposed in /verif/fixes/F71.diff: retention judges expiry
     by the clock (as the cron trigger and the query path do). -/
 def tick (z : Zone) (d : DB) (ts : Int) : TickResult × DB := tickWith z d ts d.clock
 
-/-- the event handler as written at the pinned commit (finding F14): the *event* time of the write
+/-- the event handler as written at the pinned commit (finding F71): the *event* time of the write
     batch is handed to the retention run as `now`. -/
 def tick_legacy (z : Zone) (d : DB) (ts : Int) : TickResult × DB := tickWith z d ts ts
 
